@@ -530,6 +530,31 @@ Definition obs_client_receive (s : shape) (c : client) (headers : hm) (fs : list
   | CrPanic => Nd [Nn 99]
   end.
 
+(* a generated client calling a generated server in-process: the request the client builds is the
+   request the server reads, the response the server builds is the one the client reads.  A
+   frame produced with coding e is inflatable by e (and only e). *)
+Definition frame_in (f : wframe) : rframe :=
+  mkFrame (wf_flag f) (match wf_used f with Some e => [e] | None => [] end).
+Definition obs_client_result (r : client_result) : tr :=
+  match r with
+  | CrDone n (inl _) => Nd [Nn 0; Nn (N.of_nat n)]
+  | CrDone n (inr st) => Nd [Nn 1; Nn (N.of_nat n); status_brief st]
+  | CrPanic => Nd [Nn 99]
+  end.
+Definition obs_end_to_end (t : list (encoding * list N * list N)) (s : shape) (c : client)
+           (sv : server) (user_md : hm) (msgs : list (list N)) (h : handler_result) : tr :=
+  match client_request (ctab t) s c user_md msgs with
+  | Panic => Nd [Nn 99]
+  | Done (hdrs, frames) =>
+      let resp := server_call (ctab t) s sv (mkRequest hdrs (map frame_in frames)) (propagate h) in
+      let res := match resp with
+                 | RespPanic => CrPanic
+                 | RespStatus _ m => client_receive s c m []
+                 | RespOk m fr => client_receive s c m (map frame_in fr)
+                 end in
+      Nd [obs_client_result res; Nd [hm_canon hdrs; Nd (map obs_wframe frames)]; obs_response resp]
+  end.
+
 (* sequences of the public mutators of EnabledCompressionEncodings, observed through Debug,
    is_enabled and is_empty *)
 Inductive cfg_op := OpEnable (e : encoding) | OpPop.
